@@ -468,7 +468,7 @@ fn e2e_path(tag: &str) -> String {
 /// Case: `bench=<tag> via=<cli|env|attr|attr+cli-n|builder|builder+env-n|builder+env-s> mode=<b|t> n=<n|-> s=<s> threads=<a,b,..>
 /// [mx=0] [bn=<builder count overridden by the environment>] [bs=..] [start=<main|api-test|api-bench|args-..>] [arg=<case below the benchmark>] [nomark=1] [with=<siblings run along>]
 /// [maxs=<secs>] [mins=<secs>] [tvia=cli|env] [skipx=1] [vcost=<ticks per call on the virtual clock>] [timer=os|tsc] [prec=<precision ps>]
-/// [bskip=0|1 border=sf|mf: builder skip_ext_time] [vgen=<ticks per generated input>] [eskip=<effective skip, for the model>]
+/// [bskip=0|1 border=sf|mf: builder skip_ext_time] [cskip=bare|true|false|env-true|env-false] [vgen=<ticks per generated input>] [eskip=<effective skip, for the model>]
 /// [evlog=1: append the round sizes and the history read from the dumped event log]` (the
 /// effective values; `via` says where they are given).  Output: per thread
 /// count `t=T samples=.. iters=.. calls=<per thread index>` joined by `;`.
@@ -568,13 +568,20 @@ fn run_e2e(line: &str) -> String {
             if get("n") != "-" {
                 cmd.arg("--sample-count").arg(get("n"));
             }
-            cmd.arg("--sample-size").arg(get("s")).arg("--threads").arg(get("threads"));
+            // `s=-`: no sample size anywhere, the size is tuned
+            if get("s") != "-" {
+                cmd.arg("--sample-size").arg(get("s"));
+            }
+            cmd.arg("--threads").arg(get("threads"));
         }
         "env" => {
             if get("n") != "-" {
                 cmd.env("DIVAN_SAMPLE_COUNT", get("n"));
             }
-            cmd.env("DIVAN_SAMPLE_SIZE", get("s")).env("DIVAN_THREADS", get("threads"));
+            if get("s") != "-" {
+                cmd.env("DIVAN_SAMPLE_SIZE", get("s"));
+            }
+            cmd.env("DIVAN_THREADS", get("threads"));
         }
         "attr+cli-n" => {
             cmd.arg("--sample-count").arg(get("n"));
@@ -599,6 +606,25 @@ fn run_e2e(line: &str) -> String {
     }
     if !builder_time.is_empty() {
         cmd.env("HX_BUILDER", builder_time.trim_start_matches(';'));
+    }
+    // `cskip=`: skip_ext_time on the command line (bare flag last, so that nothing can be taken for its value) / in the environment
+    match get("cskip") {
+        "bare" => {
+            cmd.arg("--skip-ext-time");
+        }
+        "true" => {
+            cmd.arg("--skip-ext-time=true");
+        }
+        "false" => {
+            cmd.arg("--skip-ext-time=false");
+        }
+        "env-true" => {
+            cmd.env("DIVAN_SKIP_EXT_TIME", "true");
+        }
+        "env-false" => {
+            cmd.env("DIVAN_SKIP_EXT_TIME", "false");
+        }
+        _ => {}
     }
     let mut child = cmd.stdout(Stdio::piped()).stderr(Stdio::piped()).spawn().expect("spawn hx-loop-e2e");
     // read both pipes on helper threads so that the child never blocks on a full pipe; 60 s watchdog
@@ -794,8 +820,27 @@ fn run_e2e(line: &str) -> String {
     line
 }
 
+/// C03, reported figures on collections too large to run: `s=<sample size> m=<number of samples>` loaded into a
+/// `BenchContext` through `stats_from_samples`; prints `Stats.sample_count` / `Stats.iter_count`.
+fn run_fig(line: &str) -> String {
+    let mut s = 1u32;
+    let mut m = 0usize;
+    for tok in hxlib::toks(line) {
+        match tok.split_once('=') {
+            Some(("s", v)) => s = v.parse().expect("s"),
+            Some(("m", v)) => m = v.parse().expect("m"),
+            _ => panic!("bad token {tok}"),
+        }
+    }
+    let durations = vec![1000u128; m];
+    let counts: [Vec<u64>; 4] = Default::default();
+    let st = v::stats_from_samples(s, &durations, &[], &counts, [false; 4]);
+    format!("samples={} iters={}", st.sample_count, st.iter_count)
+}
+
 fn dispatch(mode: &str, line: &str) -> String {
     match mode {
+        "c03fig" => run_fig(line),
         "c03e2e" | "c04cli" | "c04os" | "c19cli" | "c04ev" => run_e2e(line),
         "c03" | "c04" | "c19" | "loop" => run_case(line),
         _ => panic!("unknown mode {mode}"),
